@@ -8,6 +8,14 @@ NOTE = ("Trusted: go/packages+go/ssa v0.29.0, the symgo interpreter (fork of x/t
         "natively (go test -overlay / the real binary) before it is reported, so the models can cause misses, not alarms.")
 
 claimed = {
+ "C05": dict(level="model_checking", design="4 C05", tech="SSA symbolic execution of the real main() under a map-iteration-order oracle (nondeterministic choice per range-over-map), cross-path output comparison",
+   text="The real main/transpileFiles run from go/ssa on a template set with every map iteration order turned into a choice of the engine (all permutations for <= 3 entries, insertion/reverse/rotate above) inside a window of 4 (quick) / 5 (thorough) consecutive iteration events that slides over all events of the run, plus two global strategies; all explored paths must agree on exit status and output files. A difference is confirmed against the real binary (repeated runs, then a dict shim with sorted/reversed/rotated enumeration) before it is reported."),
+ "C08": dict(level="model_checking", design="4 C08", tech="SSA symbolic execution of tokenizer+parser+inference+emitter over symbolic operator bytes and symbolic precedences + SMT (z3)",
+   text="Chains of up to 3 (quick) / 4 (thorough) binary operators whose spellings are symbolic bytes constrained to the 12 non-pipe operators run through the whole real pipeline; z3 prunes/decides every spelling path and the emitted return expression must equal a reference precedence-climbing fold over the published table (operand forms: atom, application, not, parentheses; optional line breaks). A second level writes symbolic ranks 1..6 into the real binOpMap and checks the grouping against the reference fold for every rank table at once."),
+ "C09": dict(level="model_checking", design="4 C09", tech="SSA symbolic execution of the real main() over a virtual file system; arm names with symbolic digit bytes + SMT (z3)",
+   text="Programs assembled from choices (1..3 cases quick / 4 thorough, every arm subset/order/duplication, default yes/no, bind/_/none forms, three contexts, nested generic case) run through the real main(); accept <=> default or cover is asserted as a formula over the symbolic arm-name bytes, together with exit status, diagnostic (names the file and a really uncovered case), no output on reject, and the never-reached fallback exactly when there is no default."),
+ "C15": dict(level="model_checking", design="4 C15", tech="SSA symbolic execution of the whole compiler on generated type expressions; symbolic identifier bytes + SMT (z3)",
+   text="Type expression trees generated from choices (all trees of depth 1 + nesting spines of depth 2 quick; depth 2 + spines of depth 3 thorough) are printed as Folang and as the reference Go type, placed in each of the 5 syntactic positions and compiled by the real pipeline; one family has an identifier of 3..6 symbolic lower-case bytes so that base-type mapping, pass-through and rejection of unknown names are decided by z3 for all identifiers."),
  "C10": dict(level="model_checking", design="4 C10", tech="SSA symbolic execution + SMT (z3); cmp.Equal contract model, native go-cmp replay",
    text="Bounded symbolic execution of the real frt.OpEqual/OpNotEqual on the Go representations of first-order Folang values (ints, strings, bools, tuples, records with upper/lower-case fields, unions, slices from four producers, nestings to depth 2) with symbolic leaves; z3 discharges no-panic, agreement with a per-type structural-equality reference, negation, symmetry, reflexivity. Bound: slice lengths 0..2."),
  "C11": dict(level="model_checking", design="4 C11", tech="SSA symbolic execution of scanner+emitter over symbolic literal bytes + SMT (z3)",
